@@ -28,6 +28,7 @@ const uint64_t FAR = 9ull * 1000 * 1000;       // deadlines >= now+9s count as "
 const uint64_t NEVER = ~0ull;
 const uint32_t FAIR_N = 4000;
 const uint32_t TIME_N = 1500;
+const uint32_t HISTN = 256, MAXPERIOD = 80;
 const uint64_t TDEV_NEAR = 50000;
 
 struct Watch { uintptr_t pc, addr; uint64_t val; uint8_t size, count; uint32_t seen; };
@@ -40,6 +41,8 @@ struct Th {
     char name[24]; void* stack; uint32_t ops; uint32_t consec; uint32_t alone; void* switching_from; uint64_t switch_mark_age;
     // TSO mode: a one-entry store buffer (an under-approximation of x86-TSO: every behaviour it produces is TSO-valid)
     struct { uintptr_t addr; uint64_t val; uint8_t size; bool on; uint32_t age; } sb;
+    // polling-cycle detection: hashes of the last scheduling points (pc, address, value at the address) since this thread got the baton
+    uint64_t hist[HISTN]; uint32_t hn; uint64_t cur_hash; bool periodic;
 };
 
 Th TH[MAXT]; int NT = 0;
@@ -47,6 +50,7 @@ bool active = false;
 uint64_t vnow = MV_T0;
 uint64_t npoints = 0;
 int forced_spins = 0;
+int poll_rounds = 0;      // consecutive default switches away from threads found polling (see Th::periodic)
 bool time_dev = false;
 bool tso_mode = false;
 uint64_t deadlines[32]; int ndeadlines = 0;
@@ -128,12 +132,24 @@ void schedule(Th* me, const char* what, uintptr_t addr, bool exiting = false) {
     npoints++;
     if (me->switching_from && strcmp(what, "prepare_switch") != 0) me->switching_from = nullptr;     // its context switch has completed
     if (me->sb.on && (me->wait != W_NONE || exiting || ++me->sb.age > 40)) sb_drain(me);             // store buffers drain eventually
+    {   // the same sequence of points seeing the same values three times in a row = this thread is polling (e.g. "while (cond)
+        // thread_yield()" on plain memory, which the per-address spin detector cannot see)
+        uint64_t h = me->cur_hash ? me->cur_hash : ((uintptr_t)what * 0x9E3779B97F4A7C15ull) ^ addr; me->cur_hash = 0;
+        if (me->hn == HISTN) { memmove(me->hist, me->hist + HISTN / 2, sizeof(uint64_t) * (HISTN / 2)); me->hn = HISTN / 2; }
+        me->hist[me->hn++] = h; me->periodic = false;
+        uint32_t n = me->hn;
+        for (uint32_t P = 1; P <= MAXPERIOD && 3 * P <= n; P++) {
+            if (me->hist[n - 1 - P] != h) continue;
+            bool same = true; for (uint32_t k = 1; k <= 2 * P && same; k++) same = me->hist[n - k] == me->hist[n - k - P];
+            if (same) { me->periodic = true; break; }
+        }
+    }
     for (;;) {
         Th* list[MAXT]; int n = 0;
         bool me_enabled = !exiting && is_enabled(me);
         // fairness of the default schedule: a thread that kept the baton for FAIR_N consecutive points while others could
         // run (a polling loop the spin detector does not recognise) is treated as yielding at this decision
-        bool unfair = me->consec > FAIR_N;
+        bool unfair = me->consec > FAIR_N || me->periodic;
         if (me_enabled && !me->yielding && !unfair) list[n++] = me;
         // others: round robin starting after me
         for (int k = 1; k < NT; k++) { Th* t = &TH[(me->id + k) % NT]; if (t != me && t->wait != W_DONE && is_enabled(t)) list[n++] = t; }
@@ -172,8 +188,8 @@ void schedule(Th* me, const char* what, uintptr_t addr, bool exiting = false) {
             if (n > 1) me->consec++;
             // a thread that keeps running for a long time is probably polling for time to pass (e.g. "while (running_tasks)
             // thread_yield()" with a task asleep on a timer): let the next known deadline pass (deterministic: count based)
-            if (++me->alone > TIME_N) {
-                me->alone = 0;
+            if (++me->alone > TIME_N || (n == 1 && me->periodic)) {
+                me->alone = 0; me->hn = 0; me->periodic = false;
                 uint64_t d = NEVER;
                 for (int i = 0; i < NT; i++) { Th* t = &TH[i]; if ((t->wait == W_IDLE || t->wait == W_SLEEP || t->wait == W_COND) && t->deadline > vnow && t->deadline - vnow < FAR && t->deadline < d) d = t->deadline; }
                 for (int i = 0; i < ndeadlines; i++) if (deadlines[i] > vnow && deadlines[i] < d) d = deadlines[i];
@@ -182,7 +198,18 @@ void schedule(Th* me, const char* what, uintptr_t addr, bool exiting = false) {
             return;
         }
         me->alone = 0;
-        me->consec = 0; next->consec = 0;
+        // every runnable thread in turn was found polling: they are waiting for time to pass (e.g. two vCPUs that both loop
+        // "while (cond) thread_yield()" while a task sleeps on a timer): let the next known deadline pass
+        if (me_enabled && me->periodic && idx == 0) {
+            if (++poll_rounds >= n) {
+                poll_rounds = 0;
+                uint64_t d = NEVER;
+                for (int i = 0; i < NT; i++) { Th* t = &TH[i]; if ((t->wait == W_IDLE || t->wait == W_SLEEP || t->wait == W_COND) && t->deadline > vnow && t->deadline - vnow < FAR && t->deadline < d) d = t->deadline; }
+                for (int i = 0; i < ndeadlines; i++) if (deadlines[i] > vnow && deadlines[i] < d) d = deadlines[i];
+                if (d != NEVER) set_now(d);
+            }
+        } else poll_rounds = 0;
+        me->consec = 0; next->consec = 0; me->hn = 0; me->periodic = false; next->hn = 0; next->periodic = false;
         give_baton(next);
         if (exiting) return;
         wait_baton(me);
@@ -207,6 +234,7 @@ inline void point(Th* me, const char* what, uintptr_t pc, uintptr_t addr, int si
         uint64_t cur = readval(addr, size);
         for (int i = 0; i < me->nw; i++) if (me->w[i].pc == pc && me->w[i].addr == addr && me->w[i].val == cur && me->w[i].count >= 2) { me->wait = W_SPIN; break; }
     }
+    me->cur_hash = (pc * 0x9E3779B97F4A7C15ull) ^ (addr * 0xC2B2AE3D27D4EB4Full) ^ (addr && size <= 8 ? readval(addr, size) * 0x165667B19E3779F9ull : 0) ^ 1;
     schedule(me, what, addr);
     me->wait = W_NONE;
 }
@@ -251,7 +279,7 @@ extern "C" {
 void (*mv_on_deadlock)(const char*) = default_deadlock;
 
 void mv_init(void) {
-    NT = 0; NM = 0; NP = 0; vnow = MV_T0; npoints = 0; forced_spins = 0; time_dev = false; ndeadlines = 0; tso_mode = false;
+    NT = 0; NM = 0; NP = 0; vnow = MV_T0; npoints = 0; forced_spins = 0; poll_rounds = 0; time_dev = false; ndeadlines = 0; tso_mode = false;
     mv_on_deadlock = default_deadlock;
     if (&photon::now) photon::now = vnow;
     self = reg_thread("main");
